@@ -76,6 +76,50 @@ func freshCase(topo string, pool bool) C12Case {
 	return c
 }
 
+// capsCase: topologies whose tight per-node connection limits (CapSlack 1)
+// are only met if inbound and outbound peers are counted separately. line:
+// A(heaviest) -> B -> C with B's MaxInboundPeers 1 and MaxOutboundPeers 1,
+// B dialling C before or after A dials B. hub: leaves 1..2 are dialled by the
+// hub, leaves 3..4 dial the hub (hub: inbound 2, outbound 2); the heaviest
+// chain sits on an inbound leaf; outbound edges first or last.
+func capsCase(shape string, outboundFirst bool) C12Case {
+	const trunk = 6
+	tc := kit.TreeCase{Net: kit.NetSpec{Maturity: 1, Allow: 2, ReqOff: 2, CutOff: 2}}
+	for i := 0; i < trunk; i++ {
+		tc.Blocks = append(tc.Blocks, kit.BlockSpec{Dt: 1, Miner: i % 4, OnBad: true})
+	}
+	var run []kit.BlockSpec
+	for i := 0; i < 9; i++ {
+		run = append(run, kit.BlockSpec{Dt: 1, Miner: 1})
+	}
+	heavy := appendRun(&tc, trunk-1, run)
+	at := C12Node{Tip: 2*(trunk-1) + 1}
+	c := C12Case{Tree: tc, Outline: true, CapSlack: 1}
+	if shape == "line" {
+		c.Nodes = []C12Node{{Tip: 2*heavy + 1}, at, at}
+		out, in := C12Edge{From: 1, To: 2}, C12Edge{From: 0, To: 1}
+		if outboundFirst {
+			in.DelayMS = 30
+			c.Edges = []C12Edge{out, in}
+		} else {
+			out.DelayMS = 30
+			c.Edges = []C12Edge{in, out}
+		}
+		return c
+	}
+	c.Nodes = []C12Node{at, at, at, at, {Tip: 2*heavy + 1}}
+	outs := []C12Edge{{From: 0, To: 1}, {From: 0, To: 2}}
+	ins := []C12Edge{{From: 3, To: 0}, {From: 4, To: 0}}
+	if outboundFirst {
+		ins[0].DelayMS = 30
+		c.Edges = append(outs, ins...)
+	} else {
+		outs[0].DelayMS = 30
+		c.Edges = append(ins, outs...)
+	}
+	return c
+}
+
 // deepForkCase: two (or three) nodes on forks that part ways `depth` blocks
 // below their tips, every node with a small per-subnet RPC budget. The lighter
 // node's SendHeaders walk through its history meets `depth` entries the heavier
@@ -110,7 +154,7 @@ func deepForkCase(depth, budget int, lighterDials bool, third bool) C12Case {
 	return c
 }
 
-const starsRule = "enumerated stars: a hub that dials 3 or 4 leaves at once, one leaf holding the dominating branch (6-block trunk + 8 or 120 blocks, i.e. one or two block requests), the others short forks off the trunk tip, hub at genesis or at the trunk tip, two repetitions each (header+outline / outline-only announcements); same oracle as TestC12 (audits, no bans among honest nodes, convergence when quiescent, stall window). While the hub downloads the dominating branch its other unsynced peers are workers that cannot serve the requests, so failed requests must find their way to the peer that can. Plus 8 deep-fork cases: two or three nodes on forks that part 5 or 12 blocks below their tips, every node with WithMaxInflightRPCsPerSubnet(3 or 6), either side dialling: the lighter node's history walk makes that many SendHeaders handlers end with an error before the common ancestor is found - the budget must come back whatever way a handler ends. Fresh blocks: every node of a pair / line of three (miner at the end, in the middle) / star (a leaf mines) holds the same chain; one node mines a child carrying two payments nobody else has seen and announces it by an outline without transaction bodies - directly (receivers lack the transactions and fetch them from the announcing node with SendTransactions; the next hop gets them relayed) or after broadcasting them as a v2 transaction set (receivers complete the outline from their pools); all announcements of these cases are outlines without bodies; every node must end on the new block, nobody banned."
+const starsRule = "enumerated stars: a hub that dials 3 or 4 leaves at once, one leaf holding the dominating branch (6-block trunk + 8 or 120 blocks, i.e. one or two block requests), the others short forks off the trunk tip, hub at genesis or at the trunk tip, two repetitions each (header+outline / outline-only announcements); same oracle as TestC12 (audits, no bans among honest nodes, convergence when quiescent, stall window). While the hub downloads the dominating branch its other unsynced peers are workers that cannot serve the requests, so failed requests must find their way to the peer that can. Plus 8 deep-fork cases: two or three nodes on forks that part 5 or 12 blocks below their tips, every node with WithMaxInflightRPCsPerSubnet(3 or 6), either side dialling: the lighter node's history walk makes that many SendHeaders handlers end with an error before the common ancestor is found - the budget must come back whatever way a handler ends. Fresh blocks: every node of a pair / line of three (miner at the end, in the middle) / star (a leaf mines) holds the same chain; one node mines a child carrying two payments nobody else has seen and announces it by an outline without transaction bodies - directly (receivers lack the transactions and fetch them from the announcing node with SendTransactions; the next hop gets them relayed) or after broadcasting them as a v2 transaction set (receivers complete the outline from their pools); all announcements of these cases are outlines without bodies; every node must end on the new block, nobody banned. Tight connection limits: a line A -> B -> C (B: MaxInboundPeers 1, MaxOutboundPeers 1; A holds the dominating chain) and a hub with two outbound and two inbound leaves (limits 2/2, the dominating chain on an inbound leaf), the middle node's outbound connections made first or last: every connection the limits permit must stay, all nodes converge."
 
 // TestC12Stars runs the enumerated star topologies (round robin over shards).
 func TestC12Stars(t *testing.T) {
@@ -159,6 +203,23 @@ func TestC12Stars(t *testing.T) {
 			cs.Classf("fresh:%s,pool=%v", topo, pool)
 			if err != nil {
 				err = fmt.Errorf("fresh block (%s, transactions broadcast as a set first=%v): %w", topo, pool, err)
+			}
+			d.Case(c, cs, err)
+		}
+	}
+	// tight connection limits, inbound and outbound peers mixed at one node
+	for _, shape := range []string{"line", "hub"} {
+		for _, outboundFirst := range []bool{true, false} {
+			i++
+			if (i-1)%shards != shard {
+				continue
+			}
+			c := capsCase(shape, outboundFirst)
+			cs := &kit.CaseStats{}
+			err := c12Prop.SafeRun(c, cs)
+			cs.Classf("caps:%s,outbound-first=%v", shape, outboundFirst)
+			if err != nil {
+				err = fmt.Errorf("tight connection limits (%s, the middle node's outbound connections made first=%v): %w", shape, outboundFirst, err)
 			}
 			d.Case(c, cs, err)
 		}
